@@ -28,6 +28,8 @@ type Program struct {
 	NoInit         map[string]bool // packages whose init function is not executed
 	RepoDir        string
 	NoIfConv       bool
+	IntBits        bool // experimental: bit operations on undetermined symbolic integers via int2bv/bv2int (slow in Z3)
+	SymMaps        bool // maps may hold symbolic keys (key equality decided on the path) instead of concretising keys
 	MapOrderBudget int // max number of reversed map iterations per path under verifMapOrder(1)
 	Subst          map[*ssa.Function]*ssa.Function // verified-contract substitutions (callee -> harness contract function)
 	Shadow         bool // validate every symbolic operation against its concrete semantics under the path's model
